@@ -11,6 +11,21 @@ TB = ('Trusted base: CrossHair 0.0.110 (its models of str/int/list/dict and its 
 
 # id -> (technique, level text, design ref)  -- only properties whose module exists are claimed
 CLAIMS = {
+    'C01': ('bounded symbolic execution (CrossHair/z3) of the real expand() pipeline: operator skeletons chosen by solver-decided '
+            'selectors, symbolic repeat counts, reference tree builder as oracle',
+            'Every well-formed operator skeleton up to the stated number of items (solver-driven case split) with symbolic repeat '
+            'counts, under three self-closing styles and format on/off, goes through the real tokenizer, parser, converter, '
+            'transforms and HTML writer; the output must equal the serialised reference tree.', '§3 C01'),
+    'C02': ('bounded symbolic execution (CrossHair/z3): counter kernel with symbolic width/base/count/index, tokenizer recognition '
+            'over all short strings, expand() templates with symbolic counts, numbering parameters and maxRepeat',
+            'Counter formatting is decided for all widths<=6 and bases/counts<=10^5 symbolically; copy counts, counter inheritance '
+            'through groups and the maxRepeat cut-off are decided on a template family with symbolic N, M, width, base, '
+            'direction and limit against a reference unroller.', '§3 C02'),
+    'C03': ('bounded symbolic execution (CrossHair/z3) of expand() on one element with solver-chosen attribute mention kinds/names '
+            'and symbolic values injected at the token boundary; reference merge as oracle; character-level value harness',
+            'All sequences of up to K attribute mentions (11 kinds x 5 names) with symbolic 1-2 character values under 10 '
+            'option/syntax sets; output observed through the documented output.text callback and compared with the reference '
+            'merge; quoted/unquoted/shorthand values also go through the real tokenizer character by character.', '§3 C03'),
     'C11': ('bounded symbolic execution (CrossHair/z3) of the real extract_abbreviation over all short lines x all integer carets x '
             'option sets, plus templates with concrete valid abbreviations and symbolic left/right context',
             'Consistency clauses: path tree of the real extractor exhausted for every ASCII line up to the stated length, every '
